@@ -292,7 +292,8 @@ def fam_call():
                 for kw in kws:
                     call = {'pos': [11 + 0.5 * j for j in range(npos)],
                             'kw': [[k, 70 + j] for j, k in enumerate(kw)]}
-                    yield mk_case(fn, call=call)
+                    if call != default_call(fn):    # that one is in the
+                        yield mk_case(fn, call=call)  # sig/prepend families
     return gen
 
 
@@ -332,9 +333,9 @@ FAMILIES = {
     'sig3 reduced defaults, <=1 rates entry':
         lambda: [fam_sig(3, ('m', 's', 't2'), rates_single)],
     'sig3 every rates list':
-        lambda: [fam_sig(3, ('m', 's', 't2', 't3'), rates_all)],
-    'sig4 reduced defaults, <=1 rates entry':
-        lambda: [fam_sig(4, ('m', 's', 't2'), rates_single)],
+        lambda: [fam_sig(3, ('m', 's', 't2'), rates_all)],
+    'sig4 scalar/pair defaults, <=1 rates entry':
+        lambda: [fam_sig(4, ('s', 't2'), rates_single)],
     'prepend 1-2 of <=3 parameters': lambda: [fam_prepend(3)],
     'prepend 1-2 of <=4 parameters': lambda: [fam_prepend(4)],
     'wrap one sub-function (6 kinds/param)': lambda: [fam_wrap(P6)],
@@ -357,9 +358,8 @@ QUICK = [('sig<=2 full alphabets, every rates list', 64),
          ('variants', 16), ('metadata spec defaults', 16),
          ('call mapping', 8), ('parametric 16/17 parameters', 16)]
 THOROUGH = [('sig<=2 full alphabets, every rates list', 64),
-            ('sig3 reduced defaults, <=1 rates entry', 64),
-            ('sig3 every rates list', 512),
-            ('sig4 reduced defaults, <=1 rates entry', 512),
+            ('sig3 every rates list', 512),      # contains the quick sig3
+            ('sig4 scalar/pair defaults, <=1 rates entry', 512),
             ('prepend 1-2 of <=4 parameters', 128),
             ('wrap one sub-function (8 kinds/param)', 128),
             ('wrap two sub-functions, sibling/nested (8 kinds)', 32),
